@@ -49,6 +49,7 @@ from .values import (
     SInt,
     SReal,
     SStr,
+    SymListV,
     SymSet,
     Unit,
     View,
@@ -361,6 +362,8 @@ def isinst(I, v, cls):
         return name == "tuple"
     if isinstance(v, SeqV):
         return name == ("tuple" if v.kind == "tuple" else "list")
+    if isinstance(v, SymListV):
+        return name == "list"
     if isinstance(v, ListV):
         return name == "list"
     if isinstance(v, (DictV, MapV)):
@@ -401,6 +404,8 @@ def length(I, v, node=None):
         return mk_int(r.length())
     if isinstance(v, SeqV):
         return mk_int(v.n)
+    if isinstance(v, SymListV):
+        return mk_int(ropes.zadd(v.prefix.n, len(v.items)))
     if isinstance(v, ItemsView):
         return length(I, v.d, node)
     if isinstance(v, ObjV):
@@ -790,17 +795,18 @@ BV_W = 64
 
 
 def bv_binop(I, opname, ta, tb, node):
-    """general bit operation through 64-bit vectors; side condition 0 <= a,b < 2**64 is
-    decided on the path (outside it the operation is outside the subset)"""
+    """general bit operation through 64-bit two's-complement vectors (Python's bitwise
+    operators act on the infinite two's complement, which agrees for operands in
+    -2**63 .. 2**63-1); outside that range the operation is outside the subset"""
     ctx = I.ctx
-    lim = 1 << BV_W
-    ok = ctx.decide(z3.And(zint(ta) >= 0, zint(ta) < lim, zint(tb) >= 0, zint(tb) < lim))
+    lim = 1 << (BV_W - 1)
+    ok = ctx.decide(z3.And(zint(ta) >= -lim, zint(ta) < lim, zint(tb) >= -lim, zint(tb) < lim))
     if not ok:
-        raise OutsideSubset(f"bit operation on integers outside 0..2**64 at {I.where(node)}")
+        raise OutsideSubset(f"bit operation on integers outside the signed 64-bit range at {I.where(node)}")
     a = z3.Int2BV(zint(ta), BV_W)
     b = z3.Int2BV(zint(tb), BV_W)
     r = {"BitOr": a | b, "BitAnd": a & b, "BitXor": a ^ b}[opname]
-    return z3.BV2Int(r, is_signed=False)
+    return z3.BV2Int(r, is_signed=True)
 
 
 def binop(I, opname, a, b, node=None, inplace=False):
@@ -1053,6 +1059,8 @@ def getitem(I, obj, idx, node=None):
         return map_getitem(I, obj, idx, node)
     if isinstance(obj, SeqV):
         return seq_getitem(I, obj, idx, node)
+    if isinstance(obj, SymListV):
+        return seq_getitem(I, symlist_as_seq(I, obj), idx, node)
     if isinstance(obj, str):
         if isinstance(idx, slice):
             lo, hi = _slice_ints(I, idx, len(obj), node)
@@ -1150,7 +1158,13 @@ def seq_getitem(I, s, idx, node):
     return s.at(i)
 
 
-def seq_concat(I, a, b):
+def symlist_as_seq(I, l, kind="list"):
+    if not l.items:
+        return SeqV(l.prefix.n, l.prefix.at, kind)
+    return seq_concat(I, SeqV(l.prefix.n, l.prefix.at, "tuple"), tuple(l.items), kind)
+
+
+def seq_concat(I, a, b, kind="tuple"):
     def parts(x):
         if isinstance(x, tuple):
             n = len(x)
@@ -1170,7 +1184,7 @@ def seq_concat(I, a, b):
             return fa(i)
         return fb(as_const(ropes.zsub(i, na)))
 
-    return SeqV(as_const(ropes.zadd(na, nb)), at, "tuple")
+    return SeqV(as_const(ropes.zadd(na, nb)), at, kind)
 
 
 def _tuple_at(I, x, i):
@@ -1226,7 +1240,7 @@ def map_delitem(I, m, key, node=None):
 
 
 def value_getattr(I, obj, name, node):
-    if isinstance(obj, (ListV, DictV, SetV, SBytes, BytearrayV, SStr, str, tuple, MapV, SeqV, LoggerV, LockV, StructV, ItemsView, CoroV, bytes, int, SInt)):
+    if isinstance(obj, (ListV, SymListV, DictV, SetV, SBytes, BytearrayV, SStr, str, tuple, MapV, SeqV, LoggerV, LockV, StructV, ItemsView, CoroV, bytes, int, SInt)):
         if isinstance(obj, StructV):
             if name == "size":
                 return obj.size
@@ -1310,6 +1324,14 @@ def call_method(I, obj, name, args, kwargs, node):
                 if _dec(I, eq(I, y, args[0], node)):
                     n += 1
             return n
+    if isinstance(obj, SymListV):
+        if name == "append":
+            obj.items.append(args[0])
+            return None
+        if name == "extend":
+            obj.items.extend(list(iterate(I, args[0], node)))
+            return None
+        raise OutsideSubset(f"list.{name} on a list with a symbolic prefix at {I.where(node)}")
     if isinstance(obj, tuple):
         if name == "index":
             for i, y in enumerate(obj):
@@ -1428,6 +1450,8 @@ def bytes_method(I, obj, r, name, args, kwargs, node):
         return I.ghost.ascii_decode(r, node)
     if name == "find":
         return I.ghost.bytes_find(r, as_rope(args[0]), node)
+    if name == "rfind":
+        return I.ghost.bytes_find(r, as_rope(args[0]), node, last=True)
     if name == "hex":
         return "<hex>"
     raise OutsideSubset(f"bytes.{name} at {I.where(node)}")
@@ -1457,8 +1481,9 @@ _STRUCT_CODES = {"B": 1, "H": 2, "I": 4, "L": 4, "Q": 8, "b": 1, "h": 2, "i": 4,
 
 
 def parse_struct_fmt(fmt):
-    if not fmt or fmt[0] not in "!>":
-        raise OutsideSubset(f"struct format {fmt!r}: only network byte order is modelled")
+    if not fmt or fmt[0] not in "!><":
+        raise OutsideSubset(f"struct format {fmt!r}: only explicit standard byte orders (! > <) are modelled")
+    little = fmt[0] == "<"
     items = []
     i = 1
     size = 0
@@ -1482,7 +1507,7 @@ def parse_struct_fmt(fmt):
         else:
             raise OutsideSubset(f"struct format code {code!r}")
         i = j + 1
-    return StructV(fmt, items, size)
+    return StructV(fmt, items, size, little)
 
 
 def struct_pack(I, st, args, node):
@@ -1518,7 +1543,8 @@ def struct_pack(I, st, args, node):
             inrange = ctx.decide(z3.And(t >= 0, t < lim))
         if not inrange:
             I.throw("StructError", f"'{code}' format requires 0 <= number <= {lim - 1}", node=node)
-        segs.extend(ropes.be_bytes(ctx, t if isinstance(t, int) else (v if isinstance(v, SInt) else SInt(t)), w))
+        bs_ = ropes.be_bytes(ctx, t if isinstance(t, int) else (v if isinstance(v, SInt) else SInt(t)), w)
+        segs.extend(reversed(bs_) if st.little else bs_)
     return SBytes(segs)
 
 
@@ -1541,7 +1567,7 @@ def struct_unpack(I, st, buf, node):
         if code == "s":
             out.append(SBytes(Unit(b) for b in chunk))
         else:
-            out.append(ropes.be_value(chunk))
+            out.append(ropes.be_value(chunk[::-1] if st.little else chunk))
     return tuple(out)
 
 
@@ -1646,6 +1672,8 @@ def instantiate_special(I, cls, args, kwargs, node):
         v = args[0]
         if isinstance(v, SeqV):
             return SeqV(v.n, v.at, "tuple")
+        if isinstance(v, SymListV):
+            return symlist_as_seq(I, v, "tuple")
         return tuple(iterate(I, v, node))
     if n == "list":
         if not args:
